@@ -87,7 +87,7 @@ func TestVerifBLS(t *testing.T) {
 		"alt:identity-sig", "alt:identity-pk-identity-sig", "alt:pubkey-bytes", "pkclass:pubkey-offsubgroup", "pkclass:pubkey-plus-torsion",
 		"alt:agg-identity", "alt:agg-mismatched-lists", "alt:agg-empty-lists", "alt:agg-duplicate-messages",
 		"alt:agg-permuted", "alt:agg-dropped-signer", "alt:agg-input-append",
-		"pk-decoder-rejected", "pk-decoder-accepted", "pk-offsubgroup-generated", "full-bitflip-sweeps", "honest-still-verifies")
+		"pk-decoder-rejected", "pk-decoder-accepted", "pk-offsubgroup-generated", "full-bitflip-sweeps", "honest-still-verifies", "alt:sig-plus-torsion", "alt:sig-offsubgroup")
 	nk := lib.Scale(3, 8)
 	nm := len(testMessages(lib.NewRng("c02/len", 0)))
 	type cs struct {
@@ -226,6 +226,19 @@ func blsCase[K bls.KeyGroup](g blsGroup, k, mi int) {
 	tg.expectReject("other-key", osig, "what", "signature by another key")
 	if ss := ptAdd(sig, osig, !g.pkG1); ss != nil {
 		tg.expectReject("sum-sig", ss)
+	}
+	// the honest signature plus a point of cofactor order: on the curve, not
+	// in the order-r subgroup (the "subgroup-checked signature" mechanism)
+	if mi == 0 {
+		if hp, ok := decodeBPoint(sig, !g.pkG1); ok && lib.Eq(hp.encode(!g.pkG1), sig) {
+			for j := 0; j < lib.Scale(2, 4); j++ {
+				t := cofactorTorsionPoint(r, !g.pkG1)
+				tg.expectReject("sig-plus-torsion", hp.add(t).encode(!g.pkG1))
+			}
+			tg.expectReject("sig-offsubgroup", offSubgroupPoint(r, !g.pkG1).encode(!g.pkG1))
+		} else {
+			noteOnce("%s: big-int model could not decode an honest signature", g.name)
+		}
 	}
 	// the uncompressed serialization of the same point is another *valid*
 	// encoding in the format the package follows: observed, not judged
@@ -520,7 +533,7 @@ func blsAggCase[K bls.KeyGroup](g blsGroup, k int) {
 		case p != nil:
 			d := dupDetail(variant, encs, m, a)
 			d["panic"], d["frame"] = p.Value, p.TopFrame()
-			lib.Violation("C02:panic:"+g.name+":VerifyAggregate", monBLS, d)
+			lib.Violation(panicKey(g.name, "VerifyAggregate", "agg-duplicate-messages"), monBLS, d)
 		case ok:
 			lib.Violation("C02:accept-degenerate:"+g.name+":duplicate-messages", monBLS, dupDetail(variant, encs, m, a))
 		default:
@@ -569,7 +582,7 @@ func blsAggCase[K bls.KeyGroup](g blsGroup, k int) {
 		if p != nil {
 			d := det()
 			d["class"], d["panic"], d["frame"], d["first_input"] = class, p.Value, p.TopFrame(), lib.Hex(in[0])
-			lib.Violation("C02:panic:"+g.name+":Aggregate", monBLS, d)
+			lib.Violation(panicKey(g.name, "Aggregate", class), monBLS, d)
 			return
 		}
 		if err != nil {
